@@ -15,6 +15,7 @@ import (
 	"runtime"
 	"sort"
 	"sync"
+	"sync/atomic"
 	"time"
 
 	"github.com/synnaxlabs/cesium"
@@ -82,6 +83,42 @@ type result struct {
 	Target int    `json:"target"`
 	Order  []int  `json:"order"` // serial thread order whose outcome is reported in Serial
 	Iters  int    `json:"iters"` // mode "stress": repetitions executed (stops at the first discrepancy)
+}
+
+// ---- watchdog that tells a stuck case from a starved process
+// A heartbeat goroutine ticks every 10 ms. A watchdog fires after d only if the heartbeat kept ticking at (at least)
+// half the nominal rate during its last window: when the whole process is starved of CPU (an overloaded machine) the
+// wait is extended, window by window, up to 5 windows; [starved] records that this happened.
+var (
+	beats   atomic.Int64
+	starved atomic.Bool
+)
+
+func startHeartbeat() {
+	go func() {
+		for {
+			time.Sleep(10 * time.Millisecond)
+			beats.Add(1)
+		}
+	}()
+}
+
+func watchdog(d time.Duration) <-chan struct{} {
+	ch := make(chan struct{})
+	go func() {
+		for i := 0; i < 5; i++ {
+			b0 := beats.Load()
+			time.Sleep(d)
+			got := beats.Load() - b0
+			want := int64(d / (10 * time.Millisecond))
+			if got*2 >= want {
+				break // the process was running: whoever is still waiting is genuinely stuck
+			}
+			starved.Store(true)
+		}
+		close(ch)
+	}()
+	return ch
 }
 
 func idxKey(g uint32) uint32  { return g*10 + 1 }
@@ -415,7 +452,7 @@ func runOnce(c tcase, concurrent bool, skip [][]bool, order []int) (obs runObs) 
 		go func() { wg.Wait(); close(done) }()
 		select {
 		case <-done:
-		case <-time.After(90 * time.Second):
+		case <-watchdog(90 * time.Second):
 			obs.Stall = true
 			buf := make([]byte, 1<<20)
 			n := runtime.Stack(buf, true)
@@ -441,7 +478,7 @@ func runOnce(c tcase, concurrent bool, skip [][]bool, order []int) (obs runObs) 
 			obs.Err = "close: " + err.Error()
 			return
 		}
-	case <-time.After(90 * time.Second):
+	case <-watchdog(90 * time.Second):
 		obs.Stall = true
 		return
 	}
@@ -550,6 +587,7 @@ func serialExplains(conc, ser runObs) bool {
 }
 
 func main() {
+	startHeartbeat()
 	in := bufio.NewScanner(os.Stdin)
 	in.Buffer(make([]byte, 1<<20), 1<<26)
 	out := bufio.NewWriter(os.Stdout)
